@@ -204,7 +204,8 @@ class C09(Check):
             'sometimes an enclosing until() closes everybody; Task.cancel injected at sampled (thorough: all) '
             'activation boundaries of every contender. Oracle: FIFO lock model replayed over the logged '
             'request/enter/leave/abandon events. non-trivial = >=2 overlapping requests and a fault/interrupt/close '
-            'that made a waiter or holder leave; distinct by sha1(program+faults).')
+            'that made a waiter or holder leave; distinct by sha1(program+faults). Also contenders that wait for the lock inside an '
+            'async generator which another activity still references, and are closed / cancelled / interrupted there.')
     budgets = {'quick': dict(examples=2000, procs=4), 'thorough': dict(examples=16000, procs=16)}
     level_text = ('Model-based history check under exhaustive boundary cancel injection: never two activities inside, '
                   'owner re-enters without waiting, grants in request order, `available` equals the model at every '
